@@ -137,7 +137,10 @@ pub fn create_regexp_constructor(interp: &mut Interpreter) -> Gc<JsObject> {
     interp
         .regexp_prototype
         .borrow_mut()
-        .set_property(constructor_key, JsValue::Object(constructor.clone()));
+        .define_property(
+            constructor_key,
+            crate::value::Property::with_attributes(JsValue::Object(constructor.clone()), true, false, true),
+        );
 
     // Add Symbol.species getter
     interp.register_species_getter(&constructor);
